@@ -351,9 +351,12 @@ func (f *Font) GlyphBBoxes() []funit.Rect16 {
 func (f *Font) GlyphWidth(gid glyph.ID) float64 {
 	switch f := f.Outlines.(type) {
 	case *cff.Outlines:
+		if int(gid) >= len(f.Glyphs) {
+			return 0
+		}
 		return f.Glyphs[gid].Width
 	case *glyf.Outlines:
-		if f.Widths == nil {
+		if int(gid) >= len(f.Widths) {
 			return 0
 		}
 		return float64(f.Widths[gid])
